@@ -19,6 +19,7 @@ fn main() {
     println!("cargo:rerun-if-changed=build.rs");
     println!("cargo:rustc-check-cfg=cfg(zipora_verif)");
     println!("cargo:rerun-if-changed=Cargo.toml");
+    println!("cargo:rustc-check-cfg=cfg(zipora_verif)");
     
     // Detect and configure SIMD features
     detect_and_configure_simd();
